@@ -252,7 +252,14 @@ async def run_store(backend, store_seed, singles, multis, counters, explicit=Non
             for _ in range(multis):
                 n = u.rng.randint(2, 5)
                 reqs.append(([u.hostile_filter(pool) if u.rng.random() < 0.7 else u.wellformed_filter(pool) for _ in range(n)], False))
-        for filters, shape in reqs:
+        if explicit is None or explicit.get("replace"):
+            v = await replacement_cases(rig, accepted, counters, u if explicit is None else None, explicit)
+            for x in v:
+                x["replay"]["events"] = events
+            viols.extend(v)
+            if v or explicit is None:
+                nontrivial.extend(h([backend, "replace", store_seed, i]) for i in range(counters.get("replacements", 0)))
+        for filters, shape in ([] if (explicit and explicit.get("replace")) else reqs):
             if conn.exited:
                 conn = rig.connect()
             v, nt, sample = await judge_req(rig, conn, tap, filters, accepted, counters, shape)
@@ -265,6 +272,74 @@ async def run_store(backend, store_seed, singles, multis, counters, explicit=Non
     finally:
         await rig.close()
     return viols, nontrivial, samples
+
+
+async def replacement_cases(rig, accepted, counters, u, explicit):
+    """
+    The same subscription id re-used: once the replacing REQ has completed, every EVENT frame
+    under that id must match the NEW filters (soundness is per REQ) - also when the reader
+    is slow, when the new REQ has no valid filter, and for events arriving live afterwards.
+    """
+    import random as _random
+
+    viols = []
+    r = u.rng if u is not None else _random.Random(1)
+    pool = list(accepted.values())
+    if not pool:
+        return viols
+    key = ref.key_from_seed("c01-live")
+    cases = explicit["replace"] if explicit else None
+    n = len(cases) if cases else 6
+    for i in range(n):
+        if cases:
+            f1, second, slow = cases[i]["f1"], cases[i]["second"], cases[i]["slow"]
+        else:
+            kind1 = r.choice([1, 7, 255, 2])
+            f1 = {"kinds": [kind1]}
+            kind2 = r.choice([k for k in (1, 7, 255, 2, 40000) if k != kind1])
+            second = r.choice([[{"kinds": [kind2]}], [{"kinds": [kind2], "limit": 3}], [], [{"kinds": "x"}], [{"ids": ["zz"]}], [{}], [{"kinds": [kind2]}, {"authors": []}]])
+            slow = r.random() < 0.7
+        delay = (lambda: r.choice([0.001, 0.002, 0.003])) if slow else None
+        conn = rig.connect(send_delay=delay)
+        counters["replacements"] = counters.get("replacements", 0) + 1
+        await conn.cmd(["REQ", "rep", f1])
+        timing = r.choice(["at-once", "quiescent", "query-done-backlog-queued", "query-done-backlog-queued"])
+        if timing == "quiescent":
+            await rig.quiesce()
+        elif timing == "query-done-backlog-queued":
+            # the stored query has finished but (slow reader) its results are still queued
+            for _ in range(2000):
+                sub = rig.subs_of(conn).get("rep")
+                if sub is None or sub.query_task is None or sub.query_task.done():
+                    break
+                await asyncio.sleep(0.0005)
+        counters.setdefault("replacement_timings", {})
+        counters["replacement_timings"][timing] = counters["replacement_timings"].get(timing, 0) + 1
+        await conn.cmd(["REQ", "rep"] + second)
+        done_n = rig.rec.n
+        # a live event that matches only the OLD filter
+        live = ref.make_event(key, kind=f1["kinds"][0], created_at=gen.T0 + 5000 + counters["replacements"], content="after replacement %d" % counters["replacements"])
+        pub = rig.connect()
+        await pub.cmd(["EVENT", live])
+        await rig.quiesce()
+        accepted[live["id"]] = live  # it is part of the store from now on
+        known = accepted
+        for n_, f in conn.parsed_frames(done_n):
+            if isinstance(f, list) and len(f) > 2 and f[0] == "EVENT" and f[1] == "rep" and isinstance(f[2], dict):
+                counters["frames_judged"] = counters.get("frames_judged", 0) + 1
+                ev = known.get(f[2].get("id"), f[2])
+                valid_second = [x for x in second if isinstance(x, dict)]
+                if not valid_second or ref.match_any(ev, valid_second) == ref.NO:
+                    viols.append({"key": "%s/frame-for-replaced-filter/%s" % (rig.backend, "live" if f[2].get("id") == live["id"] else "stored"),
+                                  "msg": "[%s] after REQ rep %s replaced REQ rep %s (completed at #%d) an EVENT of kind %s was still sent under 'rep' at #%d; it matches none of the new filters"
+                                         % (rig.backend, json.dumps(second)[:120], json.dumps(f1), done_n, f[2].get("kind"), n_),
+                                  "replay": {"backend": rig.backend, "filters": second, "replace": [{"f1": f1, "second": second, "slow": slow}]}})
+                    break
+        for c in (conn, pub):
+            if not c.exited:
+                c.disconnect()
+                await c.processed()
+    return viols
 
 
 def _dedup(viols, cap=3):
@@ -301,6 +376,8 @@ def run_shard(spec):
 
 def replay(rp, spec):
     counters = {}
+    rp = dict(rp)
+    rp.setdefault("filters", [])
     v, nt, sm = R.run(run_store, rp["backend"], 0, 0, 0, counters, rp)
     v, seen = _dedup(v, cap=50)
     return {"evaluations": 1, "nontrivial": nt, "counters": counters, "violations": v, "samples": sm, "inconclusive": []}
